@@ -29,7 +29,7 @@ RULE = (
     "times with a non-zero backward offset and a non-unit preconditioner; distinct by JSON hash"
 )
 ASSUMPTIONS = ["x64; jacobian_materialize(); IWP priors"]
-REQUIRED_LABELS = ["src:posterior", "src:prior", "fact:dense", "fact:isotropic", "fact:blockdiag", "shape:()", "shape:(n,)", "shape:(n,m)"]
+REQUIRED_LABELS = ["src:posterior", "src:prior", "fact:dense", "fact:isotropic", "fact:blockdiag", "shape:()", "shape:(n,)", "shape:(n,m)", "shape:non_palindromic"]
 MAX_INCONCLUSIVE = 0.4
 M1, M2 = 6364136223846793005, 1442695040888963407  # odd 64-bit multipliers (wrapping int64 arithmetic); any split width is supported
 
@@ -66,7 +66,7 @@ def strategy(ctx):
                         base=[10.0**e for e in draw(gen.vec(cfg["d"] if cfg["fact"] != "isotropic" else 1, gen.exponent(-1.0, 1.0)))],
                         reverse=draw(st.booleans()))
         case["src"] = src
-        case["shape"] = draw(st.sampled_from([[], [], [2], [3], [2, 2]]))
+        case["shape"] = draw(st.sampled_from([[], [], [2], [3], [2, 2], [2, 3], [3, 1], [1, 2, 3]]))
         return case
 
     return one()
@@ -127,7 +127,7 @@ def check_case(case):
     cfg = case["cfg"]
     fact, n, d = cfg["fact"], cfg["n"], cfg["d"]
     shape = tuple(case["shape"])
-    res.label(f"src:{case['src']}", f"fact:{fact}", "shape:" + {0: "()", 1: "(n,)", 2: "(n,m)"}[len(shape)])
+    res.label(f"src:{case['src']}", f"fact:{fact}", "shape:" + {0: "()", 1: "(n,)", 2: "(n,m)", 3: "(n,m,k)"}[len(shape)], *(["shape:non_palindromic"] if list(shape) != list(shape)[::-1] else []))
     if case["src"] == "prior":
         seq, means_ref, joint_ref, N, abs_scale = _prior_sequence(case)
     else:
